@@ -4,6 +4,28 @@ import json, pathlib
 V = pathlib.Path(__file__).resolve().parent.parent
 ALL = [f"C{i:02d}" for i in range(1, 20)]
 CLAIMED = {
+ "C06": dict(
+   text="Coq theorems over Fail.v (the composite loop with children whose functions raise, local execution) and Dag.v (every "
+        "schedule of executor children): a raising child ends failed, keeps its outputs and announces only `failed`; no "
+        "completion-type signal of a child is ever sent unless its function returned; if any child raised or refused the caller "
+        "does not get a normal return, and a normal return means no child is marked failed; under every delivery/completion "
+        "schedule of a DAG-wired composite a child starts only after all its upstream children finished, so nothing downstream of "
+        "a failed child runs. Hand-wired flows with failing nodes (raised or suppressed) are compared with the model; the "
+        "oracle checks flags, outputs, error chain and 'nothing downstream ran' on flows and on DAG workflows with executor "
+        "children in prescribed completion orders and nested macros.",
+   design="7/C06", technique="Coq invariant proofs over the failing-child loop + corollary of the DAG edge-token invariant + differential correspondence + oracle",
+   note="Executor failures, nested macros and suppression at depth are covered by the oracle, not by the Fail.v model. Known "
+        "findings: S6 (executor child's exception swallowed in the callback), S26 (a raising starting node leaves executor "
+        "siblings running), S27 (a re-triggered failed receiver overwrites the original cause)."),
+ "C17": dict(
+   text="Coq theorems over Wrap.v (signature description -> input/output channels, set_input_values vs python's own binding, "
+        "output labels declared or scraped, single/multi output storing, run = bare function over every construction/call split "
+        "incl. cache hits, transformers for all sizes, dataclass nodes with defaults and factories). Generated python SOURCE "
+        "for every signature description is wrapped by the real decorators and compared with the model and with the bare function.",
+   design="7/C17", technique="Coq proofs by induction over parameter lists / sizes / call histories + differential correspondence on generated source + oracle",
+   note="Full theorems hold for the code after fix commit 74b924f. CPython's parser/inspect are glue validated differentially; "
+        "inputs_to_dataframe keeps a guard about ill-formed rows; caller-chosen names equal to run flags for inputs_to_dict / "
+        "dataclass fields are outside (side condition stated in the theorem)."),
  "C12": dict(
    text="Coq theorems over Chan.v (channel store with ordered connection lists; connect/disconnect/disconnect_all/"
         "copy_connections with its undo log, panel and node level helpers, >> and <<, call keywords, remove_child, replace_child, "
